@@ -45,6 +45,11 @@ def parse_diff(text):
                 out[cur][line][0].append(ln[1:])
             elif ln.startswith("+"):
                 out[cur][line][1].append(ln[1:])
+            elif ln.startswith(" ") and ln.endswith("\r"):
+                # the line-diff library also breaks a line at a lone carriage return: the unchanged part is shown as
+                # context and belongs to the same file line (both before and after)
+                out[cur][line][0].append(ln[1:])
+                out[cur][line][1].append(ln[1:])
         if ln.startswith("=== RENAMES") or ln.startswith("Renames") or ln.startswith("=== "):
             cur, line = None, None
     return out
@@ -61,6 +66,8 @@ def scenario(g, i):
     ]
     # a byte-order mark, no-break and zero-width spaces at the start of a line with several matches: anything that "tidies"
     # the displayed line shifts it against the recorded columns
+    # a lone carriage return inside a line (classic-Mac remnant, literal ^M): line and column still count in "\n" lines
+    tree.append({"p": "cr.txt", "k": "f", "m": 0o644, "c": (f"first\nlet x = 1;\r let {s} = {s} + 1;\nnext {c}\r{s} {s}\n").encode()})
     tree.append({"p": "bom.txt", "k": "f", "m": 0o644, "c": (f"\ufeff{s} = Acme.{s}.Core + {c};\n\u00a0{s} {s}\n\u200b{p} {s} \n  {s}  {s}  \n").encode()})
     if i % 4 == 0:
         tree.append({"p": "long.txt", "k": "f", "m": 0o644, "c": (("é" * 400) + f" {s} " + ("y" * 900) + f" {s} {c}\n").encode()})
@@ -125,7 +132,8 @@ def run(R):
             if sec is None:
                 fails.append({"why": f"diff preview has no section for {f} line {line}", **ctx})
                 continue
-            plus = "\n".join(sec[1]).encode("utf-8")
+            plus = "".join(seg if seg.endswith("\r") else seg + "\n" for seg in sec[1])
+            plus = (plus[:-1] if plus.endswith("\n") else plus).encode("utf-8")
             if want is None or plus != want:
                 fails.append({"why": f"diff preview of {f} line {line}: added line is not how the line reads after apply",
                               "preview": plus.decode("utf-8", "replace")[:300], "applied": (want or b"").decode("utf-8", "replace")[:300], **ctx})
